@@ -72,6 +72,49 @@ def run(R):
                                 "in the library: a result must not depend on what the process executed before (caches across queries, counters)")
     mut_statics = [st for st in P.statics if st.get("_target") == "lib" and
                    re.search(r"(sync::(poison::)?(mutex::)?Mutex|RwLock|RefCell|cell::Cell<|cell::OnceCell|sync::atomic::Atomic|OnceLock|LazyLock<.*(Mutex|RwLock|Atomic))", st["ty"])]
+    def write_only(st):
+        """every use of the static in the library is an atomic read-modify-write / store whose result is dropped: a statistics counter
+        nothing ever reads back (uses are found by the static's type: `&T` address constants)"""
+        if "atomic::Atomic" not in st["ty"]:
+            return False
+        uses = 0
+        for g in P.fns.values():
+            if g.target != "lib":
+                continue
+            addr = set()
+            for i, s_ in g.stmts():
+                if s_["k"] == "assign" and s_["rv"]["k"] == "use" and s_["rv"]["op"].get("k") == "const" and \
+                        s_["rv"]["op"].get("ty") == "&" + st["ty"] and "alloc" in str(s_["rv"]["op"].get("v")) and not s_["pl"]["p"]:
+                    addr.add(s_["pl"]["l"])
+            for _ in range(3):
+                for i, s_ in g.stmts():
+                    if s_["k"] == "assign" and not s_["pl"]["p"] and s_["rv"]["k"] in ("ref", "copy_for_deref", "use"):
+                        src = s_["rv"]["pl"]["l"] if s_["rv"]["k"] != "use" else (s_["rv"]["op"]["pl"]["l"] if s_["rv"]["op"].get("k") in ("copy", "move") else None)
+                        if src in addr:
+                            addr.add(s_["pl"]["l"])
+            if not addr:
+                continue
+            for c in g.calls:
+                if not any(a.get("k") in ("copy", "move") and a["pl"]["l"] in addr for a in c.args):
+                    continue
+                uses += 1
+                if not re.search(r"^core::sync::atomic::Atomic(\w*)::(fetch_add|fetch_sub|fetch_or|fetch_and|fetch_max|fetch_min|store)$", short(c.name)):
+                    return False
+                d = c.dest["l"] if c.dest is not None and not c.dest["p"] else None
+                if d is not None:
+                    read = any(o.get("k") in ("copy", "move") and o["pl"]["l"] == d for i, s_ in g.stmts() for o in _stmt_ops(s_)) or \
+                        any(a.get("k") in ("copy", "move") and a["pl"]["l"] == d for c2 in g.calls for a in c2.args) or \
+                        any(g.blocks[b]["term"]["k"] == "switch" and g.blocks[b]["term"]["discr"].get("k") in ("copy", "move") and
+                            g.blocks[b]["term"]["discr"]["pl"]["l"] == d for b in g.reach)
+                    if read:
+                        return False
+        return uses > 0
+
+    for st in list(mut_statics):
+        if write_only(st):
+            mut_statics.remove(st)
+            R.ok("C18.process-state", "static|" + st["key"].split("::")[-1], "only ever incremented / stored, the result dropped: a counter that "
+                 "nothing reads back cannot reach a query result", "%s:%d" % (st["span"]["file"], st["span"]["line"]), nontrivial=False)
     for st in mut_statics:
         R.violation("C18.process-state", "static|" + st["key"].split("::")[-1] if "LAZY" not in st["key"] else "static|" + st["key"].split("::")[-4],
                     "process-wide mutable state `%s`: %s - what one query (or an earlier query of the same process) stored can change what a "
@@ -245,6 +288,22 @@ def run(R):
     R.assume("closures are called only by the function that builds them or its callees; checked: no dyn/fn-pointer calls")
     R.note("functions scanned: %d reachable from main / the execution and parsing entry points; %d unreachable bodies skipped" % (n_fn, n_dead))
     R.floor("C18.sources", table["floor_sources"])
+
+
+def _stmt_ops(s_):
+    if s_["k"] != "assign":
+        return []
+    rv = s_["rv"]
+    k = rv["k"]
+    if k in ("use", "cast", "repeat"):
+        return [rv["op"]]
+    if k == "binop":
+        return [rv["l"], rv["r"]]
+    if k == "unop":
+        return [rv["o"]]
+    if k == "aggr":
+        return [o for o in rv["ops"] if isinstance(o, dict)]
+    return []
 
 
 def _may_fail(P, g, depth=2, _seen=None):
